@@ -410,7 +410,7 @@ func c13(run *core.Run, replay string) {
 	affinity := map[string][]string{
 		"DNA":  {"dna"},
 		"PACK": {"smallalpha", "dna", "numeric", "base64", "alpha:7", "alpha:16", "alpha:3"},
-		"UTF":  {"cyrillic", "cjk", "utf8big", "utf8dirty"},
+		"UTF":  {"cyrillic", "cjk", "utf8big", "utf8dirty", "utfcont"},
 		"TEXT": {"text", "textcrlf", "html", "crlfcut", "cyrillic"},
 		"EXE":  {"elfx86", "elfarm64", "pe"},
 		"MM":   {"wav", "bmp", "ppm"},
